@@ -129,7 +129,7 @@ func Run(c *core.Ctx) {
 	var first []Case
 	first = append(first, fixed...)
 	mr := c.Rand("corpus-mutants")
-	for _, s := range ptree.LoadCorpus(c.Repo) {
+	for _, s := range append(ptree.LoadCorpus(c.Repo), ptree.FixedForms()...) {
 		txt := s.Text
 		if !s.Whole {
 			txt = ptree.Wrap(txt)
